@@ -59,6 +59,11 @@ def gen(rng, tier, index):
     if not contention or rng.random() < 0.4:
         for _ in range(rng.randint(1, 2)):
             faults[str(rng.randrange(0, periods))] = [rng.random(), rng.random(), rng.choice(KINDS)]
+        if rng.random() < 0.25:
+            # two failures in a row, the first between the two renames (only the backup is good after it)
+            k = rng.randrange(0, periods - 1)
+            faults[str(k)] = [5.5 / 7, 0.75, rng.choice(["EIO", "ENOSPC", "EACCES"])]
+            faults[str(k + 1)] = [rng.random(), rng.random(), rng.choice(["EIO", "ENOSPC", "EACCES"])]
     ops = []
     node = 1
     for per in range(periods):
@@ -117,7 +122,8 @@ class Watch:
             self.current = None
             if persistence.need_save:
                 rec = {"n": len(self.attempts), "t": sim.now, "fired": False, "completed": False, "exc": None, "pending": None,
-                       "logic_at_start": sim.stats.get("logic_calls", 0), "main_before": self.fs.get(self.path)}
+                       "logic_at_start": sim.stats.get("logic_calls", 0), "main_before": self.fs.get(self.path),
+                       "bak_before": self.fs.get(self.path + ".bak")}
                 self.attempts.append(rec)
                 self.current = rec
                 spec = self.faults.get(str(rec["n"]))
@@ -292,11 +298,15 @@ def _check_after_period(world, gateway, watch, fs, cfg, violations, probes, n_be
             if err is not None:
                 violations.append(_vio("previous-file-not-loadable", {"exc": repr(err), "attempt": rec["n"], "fault": rec.get("fired"), "save_exc": rec.get("exc")},
                                        exc=type(err).__name__))
-            elif rec.get("main_before") is not None and "state_at_end" in rec and rec is watch.attempts[-1]:
-                # the disk must still give what the file held before this attempt (directly or through
-                # the backup), or the complete new state when the failure came after the second rename
+            elif (rec.get("main_before") is not None or rec.get("bak_before") is not None) and "state_at_end" in rec and rec is watch.attempts[-1]:
+                # the disk must still give what the files held before this attempt (the main file, or - after an
+                # earlier failure between the renames - the backup), or the complete new state when the failure
+                # came after the second rename
                 scratch = simfs.SimFS()
-                scratch.put(watch.path, rec["main_before"])
+                if rec.get("main_before") is not None:
+                    scratch.put(watch.path, rec["main_before"])
+                if rec.get("bak_before") is not None:
+                    scratch.put(watch.path + ".bak", rec["bak_before"])
                 _e, previous, _ = _load_clone(world, scratch, cfg)
                 world.gateway = gateway
                 if state != previous and state != rec["state_at_end"]:
